@@ -39,8 +39,55 @@ type c14Scenario struct {
 }
 
 var c14Names = []string{"bad", "svc with space", "sv\"c", "ünï", "a\tb", "bad2", "web"}
-var c14Addrs = []string{"10.1.0.9", "fd00::9", "", "bad addr", "%zz", "host.example", "[::1"}
+var c14Addrs = []string{"10.1.0.9", "fd00::9", "", "bad addr", "%zz", "host.example", "[::1", "2001:DB8::A", "::ffff:10.1.0.9", "fe80::1%eth0", "::"}
 var c14Ports = []int{80, 0, 65535, -1, 70000}
+
+// Address shapes (the statement quantifies over IPv4/IPv6 addresses and ports 0-65535): a node has an IPv4 or an
+// IPv6 address; a registration has no address of its own (the node address applies), an IPv4 address, an IPv6 literal
+// or a host name. Index 0 is the simplest choice.
+var c14NodeAddrs = [][]string{
+	{"10.0.0.11", "2001:db8::7", "fd00::11", "::1"},
+	{"10.0.0.12", "2001:db8:0:1::12", "fe80::12"},
+}
+
+const (
+	c14AddrIPv4 = iota
+	c14AddrNode // ServiceAddress empty: the node address applies
+	c14AddrIPv6
+	c14AddrName
+	c14AddrShapes
+)
+
+// c14GoodAddr: the address of the i-th well-formed registration in the drawn shape.
+func c14GoodAddr(shape, i int) string {
+	switch shape {
+	case c14AddrNode:
+		return ""
+	case c14AddrIPv6:
+		return fmt.Sprintf("fd00:2::%x", 1+i)
+	case c14AddrName:
+		return fmt.Sprintf("good-%d.svc.example", i)
+	}
+	return fmt.Sprintf("10.2.0.%d", 1+i)
+}
+
+// c14Port: a port of the registrable range 0-65535; the first choice is the given default.
+func c14Port(g *simcore.Tape, def int) int {
+	switch g.Intn(6) {
+	case 1:
+		return 65535
+	case 2:
+		return 1
+	case 3:
+		return 0
+	case 4:
+		return 443
+	case 5:
+		return g.Range(1, 65535)
+	}
+	return def
+}
+
 var c14RouteTags = []string{
 	"urlprefix-/p weight=abc", "urlprefix-/p weight=Inf", "urlprefix-/p weight=NaN", "urlprefix-/p weight=1e308", "urlprefix-/p weight=5e-324",
 	"urlprefix-/p weight=-1", "urlprefix-/p weight=+Inf", "urlprefix-/p weight=0x1p-2", "urlprefix-/p redirect=301", "urlprefix-/p redirect=301,http://a/,b",
@@ -53,6 +100,9 @@ var c14PlainTags = []string{"say \"hi\"", "back\\slash", "comma,tag", "ünï", "
 func c14GenPoison(g *simcore.Tape, nodes []simconsul.Node, i int) simconsul.Instance {
 	in := simconsul.Instance{Node: simcore.Pick(g, nodes).Name, ID: fmt.Sprintf("poison-%d", i), Name: simcore.Pick(g, c14Names),
 		Addr: simcore.Pick(g, c14Addrs), Port: simcore.Pick(g, c14Ports)}
+	if g.Chance(25) {
+		in.Port = g.Range(1, 65535)
+	}
 	n := g.Range(1, 2)
 	for k := 0; k < n; k++ {
 		t := simcore.Pick(g, c14RouteTags)
@@ -70,9 +120,11 @@ func c14GenPoison(g *simcore.Tape, nodes []simconsul.Node, i int) simconsul.Inst
 }
 
 func c14GenGood(g *simcore.Tape, nodes []simconsul.Node, i int) simconsul.Instance {
-	in := simconsul.Instance{Node: simcore.Pick(g, nodes).Name, ID: fmt.Sprintf("good-%d", i), Name: fmt.Sprintf("good%d", i%2),
-		Addr: fmt.Sprintf("10.2.0.%d", 1+i), Port: 8000 + i}
-	in.Tags = []string{simcore.Pick(g, []string{"urlprefix-/good", "urlprefix-good.example.com/", "urlprefix-/g2 strip=/g2"})}
+	in := simconsul.Instance{Node: simcore.Pick(g, nodes).Name, ID: fmt.Sprintf("good-%d", i), Name: fmt.Sprintf("good%d", i%2)}
+	in.Addr = c14GoodAddr(g.Intn(c14AddrShapes), i)
+	in.Port = c14Port(g, 8000+i)
+	in.Tags = []string{simcore.Pick(g, []string{"urlprefix-/good", "urlprefix-good.example.com/", "urlprefix-/g2 strip=/g2",
+		"urlprefix-/gs proto=https", "urlprefix-:3306 proto=tcp", "urlprefix-/gg proto=grpc"})}
 	if g.Bool() {
 		in.Tags = append(in.Tags, "v1")
 	}
@@ -103,9 +155,9 @@ func c14Denote(name, addr string, port int, tag string, plain []string) (cmd h1C
 func runC14(r *simcore.Run) {
 	g := r.Gen
 	sc := &c14Scenario{Monitor: g.Range(1, 3)}
-	sc.Nodes = []simconsul.Node{{Name: "n1", Addr: "10.0.0.11", Serf: "passing"}}
+	sc.Nodes = []simconsul.Node{{Name: "n1", Addr: simcore.Pick(g, c14NodeAddrs[0]), Serf: "passing"}}
 	if g.Bool() {
-		sc.Nodes = append(sc.Nodes, simconsul.Node{Name: "n2", Addr: "10.0.0.12", Serf: "passing"})
+		sc.Nodes = append(sc.Nodes, simconsul.Node{Name: "n2", Addr: simcore.Pick(g, c14NodeAddrs[1]), Serf: "passing"})
 	}
 	ng := g.Range(1, 3)
 	for i := 0; i < ng; i++ {
